@@ -70,6 +70,21 @@ def replay(model, obligation):
     f._on_timeout()
     if rid in c.orphaned_request_ids or c.in_flight != 0:
         fails.append('timeout after the response was processed: orphan set %r, in_flight %d (expected empty, 0)' % (c.orphaned_request_ids, c.in_flight))
+    # a late response to an orphaned stream: the slot is given back once, the id leaves the orphan set and returns to the free list once
+    from cassandra.connection import _Frame
+    c2 = _conn(cl)
+    c2.msg_received, c2.is_defunct, c2.is_closed = False, False, False
+    sid = c2.get_request_id()
+    c2.in_flight = 1
+    c2.orphaned_request_ids.add(sid)
+    free_before = list(c2.request_ids).count(sid)
+    try:
+        c2.process_msg(_Frame(version=4, flags=0, stream=sid, opcode=8, body_offset=9, end_pos=9), b'')
+    except Exception as e:
+        fails.append('late response of an orphaned stream raised %r' % (e,))
+    if sid in c2.orphaned_request_ids or c2.in_flight != 0 or list(c2.request_ids).count(sid) != free_before + 1:
+        fails.append('late response of orphaned stream %d: orphan set %r, in_flight %d (expected 0), id %d is %d times in the free list (expected once)'
+                     % (sid, sorted(c2.orphaned_request_ids), c2.in_flight, sid, list(c2.request_ids).count(sid)))
     return {'reproduced': bool(fails), 'detail': '; '.join(fails[:3]) or 'no disagreement'}
 
 
